@@ -7,7 +7,8 @@
    the traversal-continuation flag and the ignore mask, untracked entries for
    pruned content, and Directory vs PhantomDirectory for the directory itself.
    What is NOT modelled here (C12/C13 own it): hashing, executability, caches
-   and baselines, temporary-name and non-UTF-8 handling, device crossing, errors.
+   and baselines, temporary names, device crossing, errors. Names that are not
+   valid UTF-8 are modelled as the node kind [FBadName].
    The filesystem is an abstract tree [fnode]; every filesystem primitive the
    walk issues is recorded as an [event], so that "no traversal" is a statement
    about the returned log.
@@ -39,7 +40,10 @@ Inductive fnode :=
 | FDir (c : list (name * fnode))   (* directory, children in listing order *)
 | FFile (digest : string)          (* regular file (its content digest)     *)
 | FLink (target : string)          (* symbolic link                         *)
-| FOther.                          (* FIFO, socket, device: unsupported     *)
+| FOther                           (* FIFO, socket, device: unsupported     *)
+| FBadName.                        (* any content whose name is not valid
+                                      UTF-8; it is listed under the escaped
+                                      name the scanner derives               *)
 
 Definition is_fdir (n : fnode) : bool := match n with FDir _ => true | _ => false end.
 
@@ -59,6 +63,17 @@ Definition decide (st : status) (cont mask : bool) : option bool :=
   | Unignored => Some false
   end.
 
+(* A name that is not valid UTF-8 never reaches the ignorer: it is recorded,
+   under its escaped name, as untracked content below an ignore mask and as
+   problematic content otherwise. *)
+Definition bad_name_problem : string := "non-UTF-8 filename".
+Definition bad_name_entry (mask : bool) : entry :=
+  if mask then EUntracked else EProblem bad_name_problem.
+
+(* the kinds that are offered to the ignorer *)
+Definition consulted_kind (f : fnode) : bool :=
+  match f with FOther | FBadName => false | _ => true end.
+
 (* scanner.directory (and file / symbolicLink for the leaves) *)
 Fixpoint scan_node (ign : ignorer) (rp : rpath) (mask : bool) (node : fnode)
   {struct node} : entry * list event :=
@@ -72,6 +87,7 @@ Fixpoint scan_node (ign : ignorer) (rp : rpath) (mask : bool) (node : fnode)
         let '(es, evs) := go t in
         match ch with
         | FOther => ((n, EUntracked) :: es, evs)
+        | FBadName => ((n, bad_name_entry mask) :: es, evs)
         | _ =>
           let isdir := is_fdir ch in
           let '(st, cont) := ign q isdir in
@@ -88,6 +104,7 @@ Fixpoint scan_node (ign : ignorer) (rp : rpath) (mask : bool) (node : fnode)
   | FFile d => (EFile false d, [EvRead rp])
   | FLink t => (ELink t, [EvRead rp])
   | FOther => (EUntracked, [])
+  | FBadName => (bad_name_entry mask, [])
   end.
 
 (* core.Scan on a directory root: the root itself is never offered to the
@@ -209,5 +226,5 @@ Fixpoint wf_fnode (f : fnode) : bool :=
   | FDir c => go c && sorted_names (map fst c)
   | FFile d => negb (String.eqb d "")
   | FLink t => negb (String.eqb t "")
-  | FOther => true
+  | FOther | FBadName => true
   end.
